@@ -1814,6 +1814,33 @@ def dm14_steps(ctx, rule="R-DM14-STEPS"):
                     subs = [j for j, _ in calls(r, sub_call("subscribe", "parse_dm14")) if j < i]
                     note("server %s: the closing-DM14 handler is registered when the operation-complete DM15 goes out" % fn.name, bool(subs), fn, e.node,
                          "the requester's closing DM14 is not handled: the server stays in WAIT_OPERATION_COMPLETE and answers every later request 'busy'")
+    f = P.func(S, "_parse_dm16")
+    for r in runs(ctx, f):
+        if r.term in ("raise", "exc"):
+            continue
+        if not calls(r, sub_call("unsubscribe", "_parse_dm16")):
+            continue            # admission test failed: not our DM16 / acknowledge
+        sends = [e for _, e in calls(r, lambda v: mname(v) == "_send_dm15")]
+        okc = False
+        for e in sends:
+            a, kw = e.value[2], dict(e.value[3])
+            okc = okc or (a[3] if len(a) > 3 else kw.get("state")) == soc
+        note("server: the DM16 of a write / the acknowledge of a read is answered with the operation-complete DM15", okc, f, r.recs[-1].ev.node,
+             "the requester never gets 'operation completed' (or the DM15 builder is called with a state it has no case for)")
+    # facade: the request is marked as taken on BEFORE the server handles the frame (the server may send the seed DM15 from inside that call,
+    # and the key DM14 that answers it must find the facade in REQUEST_STARTED)
+    f = P.func(M, "_listen_for_dm14")
+    started = enumv(ctx, "DMState", "REQUEST_STARTED")
+    for r in runs(ctx, f):
+        if r.term in ("raise", "exc"):
+            continue
+        st = [i for i, e in stores(r, "state") if e.value == started]
+        if not st:
+            continue
+        ps = [i for i, e in calls(r, lambda v: v[1] == ("attr", field("server"), "parse_dm14"))]
+        note("facade: REQUEST_STARTED is stored before the server handles the first DM14", bool(ps) and st[0] < ps[0], f, r.recs[-1].ev.node,
+             "the server sends the seed DM15 from inside that call; the key DM14 answering it is processed while the facade is still IDLE and is dropped "
+             "(the server is not idle): the client times out")
     f = P.func(S, "respond")
     seen_states = set()
     for r in runs(ctx, f):
